@@ -269,12 +269,16 @@ def customize(
       unspecified or returns None.
     """
     if target is None:
-        return functools.partial(customize, hide=hide, prune=prune, elaborate=elaborate)
+        return functools.partial(
+            customize, hide=hide, hide_line=hide_line, prune=prune, elaborate=elaborate
+        )
 
     @elaborate_frame.register(target, *inner_names)
     def customize_it(frame: Frame, next_inner: object) -> Any:
         if hide:
             frame.hide = True
+        if hide_line:
+            frame.hide_line = True
         if elaborate:
             replacement = elaborate(frame, next_inner)
             if replacement is not None:  # pragma: no branch
